@@ -34,8 +34,8 @@
 #define MAXKEYS (MAXW * KPW + NSHARED)
 #define MAXBATCH 200
 
-enum { V_MIXED, V_GROUP, V_STALL, V_L0STOP, V_TWOMANUAL, V_BACKUP, V_BGERROR, V_NVARIANTS };
-static const char *variant_name[] = {"mixed", "group-commit", "buffer-stall", "l0-stop", "two-manual-compactions", "backup", "bg-error"};
+enum { V_MIXED, V_GROUP, V_STALL, V_L0STOP, V_TWOMANUAL, V_BACKUP, V_BGERROR, V_TINY, V_NVARIANTS };
+static const char *variant_name[] = {"mixed", "group-commit", "buffer-stall", "l0-stop", "two-manual-compactions", "backup", "bg-error", "tiny-enumerated"};
 
 typedef struct upd_s { int key, del; uint64_t vid; } upd_t;
 
@@ -72,6 +72,13 @@ static int g_sched;
 static uint64_t native_clock;
 static uint8_t *vbuf_tls[MAXW + MAXR + 1];
 static int expect_errors;     /* V_BGERROR: statuses may be errors, value checks off */
+
+/* systematic enumeration (--enum-scen): the scenario is fixed by its number, the schedule by up to two deviations
+   from the default non-preemptive schedule (vsched.h SS_ENUM); results of a child come back through shared memory */
+static int enum_mode, enum_n;
+static uint64_t enum_target[2];
+typedef struct enum_res_s { uint64_t alts[3], sig, steps; int taken, done; } enum_res_t;
+static enum_res_t *enum_res;
 
 /* commit witness from the hooks */
 static uint64_t commits_first[4096], commits_last[4096];
@@ -305,6 +312,7 @@ static void gen_scenario(vrng_t *r) {
     case V_TWOMANUAL: nw = 2; nr = 3; ops = 12 + (int)vr_uniform(r, 15); break;
     case V_BACKUP: nw = 2; nr = 2; ops = 12 + (int)vr_uniform(r, 15); break;
     case V_BGERROR: nw = 2 + (int)vr_uniform(r, 2); nr = 2; ops = 20 + (int)vr_uniform(r, 20); break;
+    case V_TINY: nw = 2 + (g_sched % 3 == 2); nr = 1; ops = 2; break;
     default: nw = 1 + (int)vr_uniform(r, 4); nr = 1 + (int)vr_uniform(r, 4); ops = 10 + (int)vr_uniform(r, 40); break;
   }
   NW = nw; NR = nr;
@@ -313,19 +321,21 @@ static void gen_scenario(vrng_t *r) {
     memset(t, 0, sizeof(*t));
     t->idx = i; t->is_writer = 1;
     t->nops = ops / 2 + (int)vr_uniform(r, (uint32_t)ops / 2 + 1);
+    if (variant == V_TINY) t->nops = 2;
     if (t->nops > MAXOPS) t->nops = MAXOPS;
     t->w = calloc((size_t)t->nops, sizeof(wop_t));
     vr_seed(&t->rng, vr_next(r));
     for (j = 0; j < t->nops; j++) {
       wop_t *w = &t->w[j];
-      int nk = variant == V_GROUP ? 1 + (int)vr_uniform(r, 2) : 1 + (int)vr_uniform(r, KPW), u, used[KPW] = {0};
+      int nk = (variant == V_GROUP || variant == V_TINY) ? 1 + (int)vr_uniform(r, 2) : 1 + (int)vr_uniform(r, KPW), u, used[KPW] = {0};
       /* now and then a batch far above the 128 KiB group-size threshold, queued among small ones */
       int big = (variant == V_GROUP || variant == V_MIXED) && vr_chance(r, 90);
       if (big) nk = KPW;
       w->b = j + 1;
       w->sync = vr_chance(r, variant == V_GROUP ? 400 : 150);
+      if (variant == V_TINY) w->sync = (g_sched % 3 == 2) && vr_chance(r, 400);
       for (u = 0; u < nk; u++) {
-        int kk = big ? u : (int)vr_uniform(r, variant == V_GROUP ? 2 : KPW);
+        int kk = big ? u : (int)vr_uniform(r, (variant == V_GROUP || variant == V_TINY) ? 2 : KPW);
         if (used[kk]) continue;
         used[kk] = 1;
         w->upd[w->nupd].key = i * KPW + kk;
@@ -334,7 +344,7 @@ static void gen_scenario(vrng_t *r) {
         w->nupd++;
       }
       if (big) vh_count("big_batches_generated", 1);
-      if (vr_chance(r, 250)) {
+      if (vr_chance(r, variant == V_TINY ? 600 : 250)) {
         int sk = MAXW * KPW + (int)vr_uniform(r, NSHARED);
         w->upd[w->nupd].key = sk;
         w->upd[w->nupd].del = 0;
@@ -348,6 +358,7 @@ static void gen_scenario(vrng_t *r) {
     memset(t, 0, sizeof(*t));
     t->idx = nw + i; t->is_writer = 0;
     t->nops = ops / 2 + (int)vr_uniform(r, (uint32_t)ops / 2 + 1);
+    if (variant == V_TINY) t->nops = 3;
     if (t->nops > MAXOPS) t->nops = MAXOPS;
     t->r = calloc((size_t)t->nops, sizeof(rop_t));
     vr_seed(&t->rng, vr_next(r));
@@ -359,6 +370,13 @@ static void gen_scenario(vrng_t *r) {
       if (variant == V_TWOMANUAL && i < 2) { o->kind = c < 500 ? R_CRANGE : c < 700 ? R_GET : R_SNAP; continue; }
       if (variant == V_BACKUP && i == 0) { o->kind = c < 350 ? R_BACKUP : c < 600 ? R_FLUSH : R_GET; continue; }
       if (variant == V_L0STOP && i == 0) { o->kind = c < 600 ? R_FLUSH : R_GET; continue; }
+      if (variant == V_TINY) {
+        /* scenario classes: 0 = reads only, 1 = one memtable flush among the reads (background thread joins in),
+           2 = three writers with sync/non-sync mix (group commit) */
+        if (o->key < MAXW * KPW) o->key = (o->key / KPW) * KPW + (o->key % 2);     /* the two keys each writer uses */
+        o->kind = (g_sched % 3 == 1 && j == 1) ? R_FLUSH : c < 400 ? R_GET : c < 750 ? R_SNAP : R_ITER;
+        continue;
+      }
       if (c < 450) o->kind = R_GET;
       else if (c < 650) o->kind = R_SNAP;
       else if (c < 800) o->kind = R_ITER;
@@ -743,6 +761,13 @@ static int run_schedule(int s, const char *base) {
   sc.starve_steps = 200 + (int)vr_uniform(&r, 3000);
   sc.spurious_permille = vr_chance(&r, 300) ? 20 : 0;
   sc.max_steps = 6000000;
+  if (enum_mode) {
+    sc.strategy = SS_ENUM;
+    sc.spurious_permille = 0;
+    sc.enum_n = enum_n;
+    sc.enum_target[0] = enum_target[0];
+    sc.enum_target[1] = enum_target[1];
+  }
 
   ldb_verif_point_cb = vp_hook;
   ncommits = 0;
@@ -777,6 +802,11 @@ static int run_schedule(int s, const char *base) {
   dbh_close(&H);
   if (!native_mode) {
     iom_yield_hook = NULL;
+    if (enum_mode && enum_res != NULL) {
+      enum_res->alts[0] = sched_enum_alts(0); enum_res->alts[1] = sched_enum_alts(1); enum_res->alts[2] = sched_enum_alts(2);
+      enum_res->sig = sched_signature(); enum_res->steps = sched_step(); enum_res->taken = sched_enum_taken();
+      enum_res->done = 1;
+    }
     sched_stop();
   } else {
     iom_delay(0, 0, 0);
@@ -853,7 +883,7 @@ static int run_schedule(int s, const char *base) {
     if (st->cond_wakes > 0) vh_count("schedules_with_block_and_wake", 1);
   }
   if (NW >= 2 && merged > 0 && (H.log.level0_started > 0 || H.log.compacting > 0)) vh_count("nontrivial_histories", 1);
-  if (s % 50 == 0 || vh_nviolations() > 0)
+  if ((!enum_mode && s % 50 == 0) || (enum_mode && enum_n == 0) || vh_nviolations() > 0)
     vh_sample("C08", "%s schedule %d variant %s: %d writers %d readers, %d acknowledged batches (%d failed), %d commit groups (%d merged), "
               "%llu flushes %llu compactions, strategy %d, %llu steps %llu switches signature %llx",
               native_mode ? "native" : "sched", s, variant_name[variant], NW, NR, writes_ok, writes_err, ncommits, merged,
@@ -864,8 +894,83 @@ static int run_schedule(int s, const char *base) {
   return 0;
 }
 
+/* one forked child = one schedule; returns 0 ok, 1 watchdog, 2 died */
+static int run_child(int s, const char *base, int fixed_variant) {
+  pid_t pid;
+  int status;
+  fflush(NULL);
+  if (enum_res != NULL) memset(enum_res, 0, sizeof(*enum_res));
+  pid = fork();
+  if (pid < 0) vh_fatal("fork failed");
+  if (pid == 0) {
+    alarm(300);
+    variant = fixed_variant;
+    vh_reset_counts();
+    run_schedule(s, base);
+    vh_flush_counts();
+    _exit(0);
+  }
+  while (waitpid(pid, &status, 0) < 0 && errno == EINTR) {}
+  if (WIFSIGNALED(status)) {
+    if (WTERMSIG(status) == SIGALRM) {
+      vh_note("schedule %d: watchdog (300 s) expired - inconclusive", s), vh_count("watchdog_expired", 1);
+      return 1;
+    }
+    vh_violation("C09", "crash", "schedule %d (seed %llu, deviations %llu/%llu) died with signal %d", s, (unsigned long long)g_seed,
+                 (unsigned long long)enum_target[0], (unsigned long long)enum_target[1], WTERMSIG(status));
+    vh_violation("C08", "crash", "schedule %d (seed %llu, deviations %llu/%llu) died with signal %d", s, (unsigned long long)g_seed,
+                 (unsigned long long)enum_target[0], (unsigned long long)enum_target[1], WTERMSIG(status));
+    return 2;
+  } else if (WIFEXITED(status) && WEXITSTATUS(status) == 2) {
+    vh_fatal("schedule %d: harness failure in child", s);
+  }
+  return 0;
+}
+
+/* all schedules of scenario `scen` with at most `depth` deviations from the default schedule (this shard's share of
+   the first-level deviations; second level complete, or every max2-th when max2 > 0) */
+static void run_enum(int scen, int depth, int shard, int nshards, uint64_t max2, const char *base) {
+  uint64_t t1, sig0, i, j, ran1 = 0, ran2 = 0, total2 = 0;
+  enum_mode = 1;
+  enum_res = mmap(NULL, sizeof(*enum_res), PROT_READ | PROT_WRITE, MAP_SHARED | MAP_ANONYMOUS, -1, 0);
+  if (enum_res == MAP_FAILED) vh_fatal("mmap failed");
+  enum_n = 0; enum_target[0] = enum_target[1] = 0;
+  if (run_child(scen, base, V_TINY) != 0 || !enum_res->done) { vh_count("enum_baseline_failed", 1); return; }
+  t1 = enum_res->alts[0]; sig0 = enum_res->sig;
+  /* the numbering of alternatives is only meaningful if the run is reproducible */
+  if (run_child(scen, base, V_TINY) != 0 || !enum_res->done || enum_res->sig != sig0 || enum_res->alts[0] != t1)
+    vh_fatal("enumeration scenario %d is not reproducible (signature %llx/%llx, alternatives %llu/%llu)", scen,
+             (unsigned long long)sig0, (unsigned long long)enum_res->sig, (unsigned long long)t1, (unsigned long long)enum_res->alts[0]);
+  if (shard == 0) {
+    vh_count("enum_scenarios", 1);
+    vh_count("enum_depth1_total", t1);
+    vh_count("enum_baseline_steps", enum_res->steps);
+  }
+  for (i = 1 + (uint64_t)shard; i <= t1; i += (uint64_t)nshards) {
+    uint64_t t2;
+    enum_n = 1; enum_target[0] = i; enum_target[1] = 0;
+    if (run_child(scen, base, V_TINY) != 0 || !enum_res->done) continue;
+    if (enum_res->taken != 1) vh_fatal("scenario %d: deviation %llu of %llu was not reached", scen, (unsigned long long)i, (unsigned long long)t1);
+    ran1++;
+    t2 = enum_res->alts[1];
+    if (depth < 2) continue;
+    total2 += t2;
+    for (j = 1; j <= t2; j += (max2 > 0 && t2 > max2 ? t2 / max2 : 1)) {
+      enum_n = 2; enum_target[0] = i; enum_target[1] = j;
+      if (run_child(scen, base, V_TINY) != 0 || !enum_res->done) continue;
+      if (enum_res->taken == 2) ran2++;
+    }
+  }
+  vh_count("enum_depth1_run", ran1);
+  vh_count("enum_depth2_total", total2);
+  vh_count("enum_depth2_run", ran2);
+  munmap(enum_res, sizeof(*enum_res));
+  enum_res = NULL;
+}
+
 int main(int argc, char **argv) {
-  int first = 0, count = 1, i, fixed_variant = -1;
+  int first = 0, count = 1, i, fixed_variant = -1, enum_scen = -1, enum_depth = 1, shard = 0, nshards = 1;
+  uint64_t enum_max2 = 0;
   const char *base = "/dev/shm/verif-concmon";
   for (i = 1; i < argc; i++) {
     if (!strcmp(argv[i], "--seed") && i + 1 < argc) g_seed = strtoull(argv[++i], NULL, 0);
@@ -874,11 +979,22 @@ int main(int argc, char **argv) {
     else if (!strcmp(argv[i], "--native") && i + 1 < argc) native_mode = atoi(argv[++i]);
     else if (!strcmp(argv[i], "--variant") && i + 1 < argc) fixed_variant = atoi(argv[++i]);
     else if (!strcmp(argv[i], "--dir") && i + 1 < argc) base = argv[++i];
+    else if (!strcmp(argv[i], "--enum-scen") && i + 1 < argc) enum_scen = atoi(argv[++i]);
+    else if (!strcmp(argv[i], "--enum-depth") && i + 1 < argc) enum_depth = atoi(argv[++i]);
+    else if (!strcmp(argv[i], "--enum-max2") && i + 1 < argc) enum_max2 = strtoull(argv[++i], NULL, 0);
+    else if (!strcmp(argv[i], "--shard") && i + 1 < argc) shard = atoi(argv[++i]);
+    else if (!strcmp(argv[i], "--nshards") && i + 1 < argc) nshards = atoi(argv[++i]);
     else { fprintf(stderr, "unknown argument %s\n", argv[i]); return 2; }
   }
   vh_init(NULL);
   mallopt(M_MMAP_THRESHOLD, 64 << 20);
   iom_pause(1); vh_mkdir_p(base); iom_pause(-1);
+  if (enum_scen >= 0) {
+    for (i = enum_scen; i < enum_scen + count; i++) run_enum(i, enum_depth, shard, nshards, enum_max2, base);
+    iom_pause(1); vh_rm_rf(base); iom_pause(-1);
+    vh_finish();
+    return 0;
+  }
   for (i = first; i < first + count; i++) {
     pid_t pid;
     int status;
